@@ -718,6 +718,13 @@ func BuildMsg(s MsgSpec, o BuildOpts) *Built {
 			// AttachReader reads everything at attach time; a failing reader fails the build, so
 			// the reader handed over is healthy and the failure behaviour cannot apply.
 			r := bytes.NewReader(f.Content.Data)
+			if len(f.Content.Data)%2 == 1 {
+				// the caller has already consumed a record header from the (seekable) reader:
+				// the attachment is what follows the current position, in every render
+				hdr := []byte("record header of " + f.Name + "\n")
+				r = bytes.NewReader(append(hdr, f.Content.Data...))
+				_, _ = io.CopyN(io.Discard, r, int64(len(hdr)))
+			}
 			if embed {
 				fail(m.EmbedReader(f.Name, r, fopts...))
 			} else {
